@@ -32,6 +32,15 @@ impl VoronoiCell {
         }
     }
 
+    /// A cell that was not constructed (partial construction): zero volume and centroid, but it
+    /// still knows the index of its generator.
+    pub(super) fn unconstructed(idx: usize) -> Self {
+        Self {
+            idx,
+            ..Self::default()
+        }
+    }
+
     /// Build a [`VoronoiCell`] from a [`ConvexCell`] by computing the relevant
     /// integrals.
     ///
